@@ -14,6 +14,7 @@ package main
 //            `arp --live` (de-duplication on) one per host, at its first sighting, over several passes.
 
 import (
+	"path/filepath"
 	"bytes"
 	"encoding/binary"
 	"encoding/json"
@@ -53,6 +54,9 @@ type sigRun struct {
 	obs     string
 	probes  int
 	listens []net.Listener
+	stdin   []byte // with opt.stdinHold: a target list whose producer has not finished
+	opt     sxOpt
+	fifo    string // a named pipe given to -f, whose writer stays open
 }
 
 func e2eSigintComponent(r *hx.Run) {
@@ -168,6 +172,42 @@ func e2eSigintComponent(r *hx.Run) {
 				}
 				args = append(args, "10.0.0.0/24")
 			}
+			// the target list comes from a producer that has not finished when the signal arrives: `-f -` on a pipe
+			// that stays open, or a named pipe (the addresses given so far are scanned, the scan can be stopped)
+			listMode := ""
+			if (it+fi)%4 == 1 && f.kind != "pkt-arp" && f.kind != "pkt-icmp" {
+				// replace the positional target by a list
+				tgt := args[len(args)-1]
+				args = args[:len(args)-1]
+				var sb strings.Builder
+				hostBase := "10.0.0."
+				if f.tun {
+					hostBase = "10.1.0."
+				}
+				if f.kind == "app" {
+					hostBase = strings.TrimSuffix(strings.TrimSuffix(tgt, "/24"), "0")
+				}
+				for h := 2; h < 120; h++ {
+					fmt.Fprintf(&sb, "{\"ip\":\"%s%d\"}\n", hostBase, h)
+				}
+				if ((it+fi)/4)%2 == 0 {
+					listMode = "/stdin-open"
+					s.stdin, s.opt.stdinHold = []byte(sb.String()), true
+					args = append(args, "-f", "-")
+					if f.kind != "app" && !f.tun {
+						// the ARP cache cannot come from stdin as well: it is a file already (-a)
+					}
+				} else {
+					listMode = "/fifo-open"
+					s.fifo = filepath.Join(dir, fmt.Sprintf("list-%d-%d.fifo", it, fi))
+					syscall.Mkfifo(s.fifo, 0o600)
+					s.stdin = []byte(sb.String())
+					args = append(args, "-f", s.fifo)
+				}
+				if f.tun {
+					args = append(args, "-i", "tun0")
+				}
+			}
 			s.args = args
 			link := "eth"
 			if f.tun {
@@ -176,7 +216,7 @@ func e2eSigintComponent(r *hx.Run) {
 			if f.kind == "app" {
 				link = "lo"
 			}
-			s.class = strings.Join(f.words, " ") + "/" + link + "/" + map[bool]string{true: "early", false: "mid"}[early] + "/" + map[bool]string{true: "json", false: "text"}[asJSON] + map[bool]string{true: "/slowrate", false: ""}[slow]
+			s.class = strings.Join(f.words, " ") + "/" + link + "/" + map[bool]string{true: "early", false: "mid"}[early] + "/" + map[bool]string{true: "json", false: "text"}[asJSON] + map[bool]string{true: "/slowrate", false: ""}[slow] + listMode
 			runs = append(runs, s)
 		}
 	}
@@ -269,10 +309,36 @@ func exitDelayOf(args []string) int64 {
 // bound).  obs = "ended=E;panic=P;lines=L;running=R|ms=<signal to exit>;exit=<code>;out=<bytes of stdout>"
 // (running = the scan was still under way when the signal was sent: every run is sized to last 2.5 s or more)
 func sigintRun(s *sigRun, boundMs int64) string {
-	p, err := startSX(false, nil, s.args...)
+	var fifoW *os.File
+	if s.fifo != "" {
+		// the producer of the named pipe: writes what it has and keeps its end open
+		go func() {
+			if w, err := os.OpenFile(s.fifo, os.O_WRONLY, 0); err == nil {
+				fifoW = w
+				w.Write(s.stdin)
+			}
+		}()
+	}
+	stdin := s.stdin
+	if s.fifo != "" {
+		stdin = nil
+	}
+	p, err := startSXOpt(s.opt, false, stdin, s.args...)
 	if err != nil {
 		return "ended=0;panic=0;lines=none;running=0|start=" + hx.HexS(err.Error())
 	}
+	defer func() {
+		if s.fifo != "" {
+			// unblock a producer that never got a reader, then close
+			if r, err := os.OpenFile(s.fifo, os.O_RDONLY|syscall.O_NONBLOCK, 0); err == nil {
+				time.Sleep(10 * time.Millisecond)
+				r.Close()
+			}
+			if fifoW != nil {
+				fifoW.Close()
+			}
+		}
+	}()
 	time.Sleep(s.delay)
 	early := p.exited()
 	t0 := time.Now()
